@@ -23,7 +23,13 @@ skips: at every exit, loop head and call of a method that moves the buffer the
 cursor stands exactly behind the last byte handed out -- in particular a
 buffer that is REPLACED by the next data of the stream is re-based together
 with `_buffer_pos` (reset on the same path in any order, or provably 0 / the
-old buffer provably drained and the cursor reset).
+old buffer provably drained and the cursor reset); R10 (sync, shared with C13
+as its R6) the synchronous analogue of R7: in the read-until loop, on a path
+that has not fetched new data from the source since the loop head, buffered
+bytes that are handed out (returned / appended to a sink, by the method itself
+or by a reader method it delegates to, followed for two levels with the
+caller's path facts) after a failed delimiter search end at least
+len(delimiter) - 1 bytes before the end of the searched range.
 """
 
 from __future__ import annotations
@@ -654,6 +660,69 @@ def _run_steps(env, cfg, steps, on_node=None):
 _SINKS = ('append', 'write')             # <container>.append(x) / <file>.write(x): x is handed out (joined into the result / piped)
 
 
+def _stable_prelude(rd, f, loop_stmt):
+    """What the top-level statements of f in front of `loop_stmt` establish for every head of that loop:
+    ('assign', stmt) for `x = <expr>` where x is stored exactly once in f, and ('guard', stmt) for `if <test>: raise ...`
+    (the test is false behind it) -- <expr> / <test> built from constants, parameters that are never stored, earlier such
+    locals, attributes that only the constructor stores, arithmetic / comparisons / conditional expressions and len/min/max."""
+    if any(isinstance(x, (ast.Global, ast.Nonlocal)) for x in ast.walk(f.node)):
+        return []
+    body = f.node.body
+    idx = next((i for i, st in enumerate(body) if any(x is loop_stmt for x in ast.walk(st))), None)
+    if idx is None:
+        return []
+    stores = {}
+    for x in walk_self(f.node):
+        if isinstance(x, ast.Name) and isinstance(x.ctx, (ast.Store, ast.Del)):
+            stores[x.id] = stores.get(x.id, 0) + 1
+        elif isinstance(x, ast.ExceptHandler) and x.name:
+            stores[x.name] = stores.get(x.name, 0) + 1
+    stable = {a for a in f.params() if a != 'self' and not stores.get(a)}
+    ctor_only = {}
+
+    def attr_ok(d):
+        if d not in ctor_only:
+            ctor_only[d] = all(d not in _stores(g) for n, g in rd.methods.items() if n != '__init__')
+        return ctor_only[d]
+
+    def ok(e):
+        if isinstance(e, ast.Constant):
+            return True
+        if isinstance(e, ast.Name):
+            return isinstance(e.ctx, ast.Load) and e.id in stable
+        if isinstance(e, ast.Attribute):
+            d = dotted(e)
+            return d is not None and d.startswith('self.') and d.count('.') == 1 and attr_ok(d)
+        if isinstance(e, ast.BinOp):
+            return isinstance(e.op, (ast.Add, ast.Sub, ast.Mult)) and ok(e.left) and ok(e.right)
+        if isinstance(e, ast.UnaryOp):
+            return isinstance(e.op, (ast.USub, ast.UAdd, ast.Not)) and ok(e.operand)
+        if isinstance(e, ast.IfExp):
+            return ok(e.test) and ok(e.body) and ok(e.orelse)
+        if isinstance(e, ast.BoolOp):
+            return all(ok(x) for x in e.values)
+        if isinstance(e, ast.Compare):
+            return all(isinstance(o, (ast.Lt, ast.LtE, ast.Gt, ast.GtE, ast.Eq, ast.NotEq)) for o in e.ops) and ok(e.left) and all(ok(x) for x in e.comparators)
+        if isinstance(e, ast.Call):
+            return isinstance(e.func, ast.Name) and e.func.id in _PURE_CALLS and not stores.get(e.func.id) and e.func.id not in f.params() \
+                and not e.keywords and all(ok(a) for a in e.args)
+        return False
+
+    out = []
+    for st in body[:idx]:
+        tgt = None
+        if isinstance(st, ast.Assign) and len(st.targets) == 1 and isinstance(st.targets[0], ast.Name):
+            tgt = st.targets[0].id
+        elif isinstance(st, ast.AnnAssign) and st.value is not None and isinstance(st.target, ast.Name):
+            tgt = st.target.id
+        if tgt is not None and stores.get(tgt) == 1 and tgt not in f.params() and ok(st.value):
+            out.append(('assign', st))
+            stable.add(tgt)
+        elif isinstance(st, ast.If) and not st.orelse and len(st.body) == 1 and isinstance(st.body[0], ast.Raise) and ok(st.test):
+            out.append(('guard', st))
+    return out
+
+
 class _StreamModel:
     """Abstract execution of every acyclic segment of one reader method with the ghost stream offset.
     mode: 'R6' search starts, 'R7' early hand-out keeps a delimiter tail, 'R8' conservation of the cursor
@@ -671,6 +740,8 @@ class _StreamModel:
         # methods through which new stream data enters (they call the source callable); none in the asynchronous reader
         self.src_methods = {n for n, g in rd.methods.items() if n != '__init__' and any(
             isinstance(x, ast.Attribute) and dotted(x) == SOURCE_FN and isinstance(x.ctx, ast.Load) for x in walk_self(g.node))}
+        # R10: obligations met inside a callee are reported at the delegating call of the method under analysis
+        self.depth, self.report_f, self.top, self.stack, self.subs = 0, f, None, (f.qual,), {}
 
     # ------------------------------------------------------------------ state
     def start_env(self, start):
@@ -682,6 +753,19 @@ class _StreamModel:
             a, b = _CANDIDATES[c](env)
             env.add_eq(a, b)
         return env
+
+    def start_envs(self, start):
+        """start_env; for R10 also what the straight-line prelude of the method establishes for every later loop head."""
+        envs = [self.start_env(start)]
+        if self.mode != 'R10' or start == self.cfg.entry:
+            return envs
+        for kind, st in _stable_prelude(self.rd, self.f, self.cfg.node(start).stmt):
+            if kind == 'assign':
+                for e in envs:
+                    e.exec(st)
+            else:
+                envs = [e2 for e in envs for e2 in e.assume(st.test, False)]
+        return envs
 
     def lose(self, env, why, confused=True):
         g = env.ghost
@@ -1137,7 +1221,7 @@ class _StreamModel:
             for start, steps, end in segs:
                 if not inv.get(end):
                     continue
-                for e in _run_steps(self.start_env(start), cfg, steps, self.on_node):
+                for e in [e2 for e0 in self.start_envs(start) for e2 in _run_steps(e0, cfg, steps, self.on_node)]:
                     if any(k == 'raise' for k, _v, _n in e.log):
                         continue
                     for c in sorted(inv[end]):
@@ -1151,7 +1235,7 @@ class _StreamModel:
             if end == cfg.xexit:
                 continue
             self.wit = flow.describe_path(cfg, [s[0] for s in steps])
-            for e in _run_steps(self.start_env(start), cfg, steps, self.on_node):
+            for e in [e2 for e0 in self.start_envs(start) for e2 in _run_steps(e0, cfg, steps, self.on_node)]:
                 if any(k == 'raise' for k, _v, _n in e.log):
                     continue
                 self.on_end(e, end)
